@@ -258,15 +258,16 @@ class World:
                      "idx": len(mxsys.callstack.idxstack),
                      "counter": mxsys.callstack.counter},
         }
-        sane = True
+        sane, why = True, ""
         try:
             mxsys._check_sanity()
             for s in self.all_spaces():
                 for c in s.cells.values():
                     c.check_sanity()
-        except AssertionError:
-            sane = False
+        except Exception as e:      # AssertionError, or the self-check itself crashing
+            sane, why = False, type(e).__name__
         post["sane"] = sane
+        post["sane_why"] = why
         if deep:
             post["defs"] = self.project_defs()
             post["deps"] = self.project_deps()
